@@ -325,8 +325,8 @@ impl<C: Cfg> World<C> {
 
     /// get/at/get_mut/at_mut, erased and typed, at index `idx` (may be out of range).
     pub fn do_get(&mut self, v: usize, idx: usize, view: u32, tr: &mut String) {
-        const NAMES: [&str; 12] = ["get", "at", "get_mut", "at_mut", "typed.get", "typed.at", "typed.get_mut", "typed.at_mut", "iter.nth", "iter_mut.nth", "iter.skip.next", "iter.nth_back"];
-        let name = NAMES[view as usize % 12];
+        const NAMES: [&str; 15] = ["get", "at", "get_mut", "at_mut", "typed.get", "typed.at", "typed.get_mut", "typed.at_mut", "iter.nth", "iter_mut.nth", "iter.skip.next", "iter.nth_back", "iter.next.nth", "iter.next_back^2.nth", "iter_mut.next.nth_back"];
+        let name = NAMES[view as usize % 15];
         let _ = write!(tr, "{}(v{}, {})", name, v, idx);
         let len = self.model[v].len();
         let oob = idx >= len;
@@ -336,7 +336,7 @@ impl<C: Cfg> World<C> {
         // observation: (payload via downcast_ref, typeid ok, size ok, bytes decode payload, ptr offset)
         type Obs = Option<(Option<u32>, bool, bool, Option<u32>, usize)>;
         let base = vec.as_bytes().as_ptr() as usize;
-        let r: Result<Obs, Panicked> = call(|| match view % 12 {
+        let r: Result<Obs, Panicked> = call(|| match view % 15 {
             0 => vec.get(idx).map(|e| (e.downcast_ref::<C::T>().and_then(|x| x.payload()), e.value_typeid() == tid, any_vec::any_value::AnyValueTypeless::size(&*e) == size, C::T::see(any_vec::any_value::AnyValueTypeless::as_bytes(&*e)).payload, any_vec::any_value::AnyValueSizeless::as_bytes_ptr(&*e) as usize)),
             1 => {
                 let e = vec.at(idx);
@@ -368,13 +368,57 @@ impl<C: Cfg> World<C> {
                 (p, e.value_typeid() == tid, any_vec::any_value::AnyValueTypeless::size(&*e) == size, C::T::see(any_vec::any_value::AnyValueTypeless::as_bytes(&*e)).payload, any_vec::any_value::AnyValueSizeless::as_bytes_ptr(&*e) as usize)
             }),
             10 => vec.iter().skip(idx).next().map(|e| (e.downcast_ref::<C::T>().and_then(|x| x.payload()), e.value_typeid() == tid, any_vec::any_value::AnyValueTypeless::size(&*e) == size, C::T::see(any_vec::any_value::AnyValueTypeless::as_bytes(&*e)).payload, any_vec::any_value::AnyValueSizeless::as_bytes_ptr(&*e) as usize)),
+            // element idx reached through an iterator that was already advanced
+            12 => {
+                // one item taken from the front, then nth(idx-1)
+                let mut it = vec.iter();
+                if idx == 0 {
+                    it.next()
+                } else {
+                    let _ = it.next();
+                    it.nth(idx - 1)
+                }
+                .map(|e| (e.downcast_ref::<C::T>().and_then(|x| x.payload()), e.value_typeid() == tid, any_vec::any_value::AnyValueTypeless::size(&*e) == size, C::T::see(any_vec::any_value::AnyValueTypeless::as_bytes(&*e)).payload, any_vec::any_value::AnyValueSizeless::as_bytes_ptr(&*e) as usize))
+            }
+            13 => {
+                // two items taken from the back first: indices >= len-2 are no longer reachable
+                let mut it = vec.iter();
+                let _ = it.next_back();
+                let _ = it.next_back();
+                it.nth(idx).map(|e| (e.downcast_ref::<C::T>().and_then(|x| x.payload()), e.value_typeid() == tid, any_vec::any_value::AnyValueTypeless::size(&*e) == size, C::T::see(any_vec::any_value::AnyValueTypeless::as_bytes(&*e)).payload, any_vec::any_value::AnyValueSizeless::as_bytes_ptr(&*e) as usize))
+            }
+            14 => {
+                // one item taken from the front, then counted from the back
+                let mut it = vec.iter_mut();
+                let _ = it.next();
+                let k = if idx < len { len - 1 - idx } else { idx };
+                it.nth_back(k).map(|mut e| {
+                    let p = e.downcast_mut::<C::T>().and_then(|x| x.payload());
+                    (p, e.value_typeid() == tid, any_vec::any_value::AnyValueTypeless::size(&*e) == size, C::T::see(any_vec::any_value::AnyValueTypeless::as_bytes(&*e)).payload, any_vec::any_value::AnyValueSizeless::as_bytes_ptr(&*e) as usize)
+                })
+            }
             _ => {
                 // counted from the back: element idx is nth_back(len-1-idx); beyond the end: nth_back(len + (idx-len))
                 let k = if idx < len { len - 1 - idx } else { idx };
                 vec.iter().nth_back(k).map(|e| (e.downcast_ref::<C::T>().and_then(|x| x.payload()), e.value_typeid() == tid, any_vec::any_value::AnyValueTypeless::size(&*e) == size, C::T::see(any_vec::any_value::AnyValueTypeless::as_bytes(&*e)).payload, any_vec::any_value::AnyValueSizeless::as_bytes_ptr(&*e) as usize))
             }
         });
-        let is_at = view % 12 < 8 && view % 2 == 1;
+        let is_at = view % 15 < 8 && view % 2 == 1;
+        // through an advanced iterator some in-range elements are no longer reachable
+        let unreachable = match view % 15 {
+            13 => idx + 2 >= len && idx < len,
+            14 => idx == 0 && len > 0,
+            _ => false,
+        };
+        if unreachable {
+            self.nontrivial = true;
+            self.class("advanced-iterator");
+            self.expect_panic(name, &r, false, "");
+            if let Ok(Some(_)) = r {
+                self.fail(MON_MODEL | MON_VIEW | MON_ITER, format!("{}:yielded-again", name), format!("{} at index {} returned an element the iterator had already handed out (len {})", name, idx, len));
+            }
+            return;
+        }
         if oob {
             self.nontrivial = true;
             self.class("out-of-range");
